@@ -30,8 +30,9 @@ MANIFEST = {
             'Trusted: CPython utf-8 decoder, the reference codec in this file.',
 }
 
-KEYS = ['a', 'b', ' ', '&', '=', '+', '%', '%41', 'ü', '日本', 'a b=c&d']
-VALUES = ['', 'a', 'b', ' ', '&', '=', '+', '%', '%41', 'ü', '日本', 'a b=c&d']
+# 'Ã©' / 'Â£10': text whose code points, read as bytes, are well-formed UTF-8 (what a double decoding would turn into 'é' / '£10')
+KEYS = ['a', 'b', ' ', '&', '=', '+', '%', '%41', 'ü', '日本', 'a b=c&d', 'Ã©']
+VALUES = ['', 'a', 'b', ' ', '&', '=', '+', '%', '%41', 'ü', '日本', 'a b=c&d', 'Â£10']
 CORE_K = ['a', 'b', '&', '%41', 'ü']
 CORE_V = ['', 'a', '=', '+', '日本']
 ALPHA = 'a=&+%4b'
